@@ -9,7 +9,8 @@ from ..runner import Env, Outcome, Violation
 
 THEOREMS = ["C31_active_steps", "C31_timeout_tick", "C31_cancel_tick", "C31_drain_timeout", "C31_drain_cancel",
             "C31_nothing_after_end", "C31_finished_never_timed_out", "C31_timeout_only_after_deadline",
-            "C31_halt_timeout_only_by_timeout_tick", "C31_cancel_keeps_serialised_context"]
+            "C31_halt_timeout_only_by_timeout_tick", "C31_cancel_keeps_serialised_context",
+            "C31_immediate_retry_buffered", "C31_buffer_drained_before_mailbox", "C31_requeue_tick_held"]
 EXPLANATION = (
     "Lean: the timeout tick publishes WorkflowTimedOutEvent naming exactly the steps with an in-progress invocation and halts with "
     "`timeout`, keeping queues/in-progress/buffers/waiters; the cancel tick publishes WorkflowCancelledEvent and halts with "
@@ -20,7 +21,14 @@ EXPLANATION = (
     "(timeouts, cancels at scheduler-chosen points), serde. Search: live workflows with timeouts 1..30 and cancels at random "
     "quiet points: terminal event/outcome kinds, active_steps vs the in-progress table, deadline, no step entry and no tick after "
     "the end, state unchanged by cancel; after a cancel the context is serialised (ctx.to_dict -> JSON), resumed with "
-    "Context.from_dict and every invocation that was in progress or queued is executed again."
+    "Context.from_dict and every invocation that was in progress or queued is executed again. A retry that is due at once (policy "
+    "delay 0) is re-queued through the tick buffer, never the timer heap; the buffer is drained before the mailbox is looked at; "
+    "reducing the re-queue tick puts the event back into the step's tables (three theorems) -- so a cancel that is already in the "
+    "mailbox when an attempt fails still retains the event. Search for that: a retried step whose attempts fail behind a gate, "
+    "with the cancel delivered in the very instant the gate opens (scheduler option gate+ext); oracle independent of the engine "
+    "state: from the step bodies' own enter/exit records, every invocation that was executing at the cancel, or whose last "
+    "execution failed with the spec's policy granting an immediate retry, must be executed again by the resumed run (a retry "
+    "waiting out a positive delay is the recorded finding C12/pending_retry_timer_lost and only counted)."
 )
 ASSUMPTIONS = suite.ENGINE_ASSUMPTIONS + [
     "delivery of CancelledError into running step bodies and executor threads of sync steps is asyncio's; covered only by the monitors (no step entry after the end)",
@@ -28,30 +36,100 @@ ASSUMPTIONS = suite.ENGINE_ASSUMPTIONS + [
 ]
 
 
-def _cancel_resume(env: Env, out: Outcome, n: int) -> None:
+def _retry_decision(pol: dict | None, rn: int) -> tuple[str, float | None]:
+    """what the step's retry policy -- as written in the spec, not as observed -- asks for after the failure of
+    execution number `rn` (0-based): ("exhausted", None) | ("retry", delay) | ("unknown", None)"""
+    if pol is None:
+        return ("exhausted", None)
+    kind = pol.get("kind", "attempts")
+    if kind not in ("attempts", "legacy", "chain"):
+        return ("unknown", None)
+    if rn + 1 >= max(pol["n"], 1):
+        return ("exhausted", None)
+    if kind == "chain":
+        # which link of a chain applies to the k-th retry is the subject of C06 (open finding: the index is off by one);
+        # here only "at once" vs "after a delay" matters, so the decision is used when both conventions agree on it
+        waits = pol["waits"]
+        a, b = float(waits[min(rn, len(waits) - 1)]), float(waits[min(rn + 1, len(waits) - 1)])
+        return ("retry", max(a, b)) if (a == 0) == (b == 0) else ("unknown", None)
+    return ("retry", float(pol.get("wait", 0)))
+
+
+def _unfinished_invocations(tr1) -> list[tuple]:
+    """Independent of the engine's state: from the step bodies' own enter/exit records of the cancelled run, the
+    invocations (step, input uid) that had started and had not completed successfully when the run ended, each with the
+    reason why it is still owed: ("in_progress", None) -- the body was running and was cancelled;
+    ("retry_due_at_once", rn) -- its last execution failed and the policy of the spec grants an immediate retry (delay 0);
+    ("retry_after_delay", (rn, d)) -- granted, after a positive delay d."""
+    sdefs = {s_["name"]: s_ for s_ in tr1.spec["steps"]}
+    last: dict[tuple, tuple] = {}
+    open_: dict[tuple, int] = {}
+    for rec in tr1.steps:
+        if rec[0] not in ("enter", "exit") or not isinstance(rec[2], int) or rec[4] == -1.0:
+            continue
+        key = (rec[1], rec[2])
+        open_[key] = open_.get(key, 0) + (1 if rec[0] == "enter" else -1)
+        last[key] = rec
+    owed = []
+    for key, rec in last.items():
+        sd = sdefs.get(key[0])
+        if sd is None or sd.get("role") == "handler" or sd.get("sync") or open_.get(key, 0) != 0 or rec[0] != "exit":
+            continue
+        status = rec[5].get("status")
+        if status == "cancelled":
+            owed.append((key, "in_progress", None))
+        elif status == "raise:Boom":
+            what, d = _retry_decision(sd.get("retry"), rec[3])
+            if what == "retry" and d == 0:
+                owed.append((key, "retry_due_at_once", rec[3]))
+            elif what == "retry":
+                owed.append((key, "retry_after_delay", (rec[3], d)))
+    return owed
+
+
+def _race_spec(rng: random.Random) -> dict:
+    spec = specgen.gen_retry_race_spec(rng)
+    spec["snapshot_after_end"] = True
+    if rng.random() < 0.3:
+        spec["resume_timeout"] = rng.choice([4, 10, 30])
+    return spec
+
+
+def _general_spec(rng: random.Random) -> dict:
+    spec = specgen.gen_spec(rng, allow_timeout=False, family=rng.choice(["general", "fanin", "retry", "wait"]))
+    spec["externals"] = [e for e in spec.get("externals", []) if e["op"] == "send"]
+    spec["externals"].append({"op": "cancel", "after_quiet": rng.randint(0, 4)})
+    spec["snapshot_after_end"] = True
+    spec.pop("timeout", None)
+    if rng.random() < 0.6:
+        spec["resume_timeout"] = rng.choice([1, 2, 4, 10, 30])
+    return spec
+
+
+def _cancel_resume(env: Env, out: Outcome, n: int, gen=_general_spec, label: str = "cancel_resume", replay: bool = True,
+                   extra: tuple = ()) -> None:
     rng = random.Random(env.rng.randrange(1 << 30))
     jobs = []
-    if env.replay is not None and isinstance(env.replay.get("payload", {}).get("case"), dict) and "cancel_resume" in env.replay["payload"]["case"]:
+    if replay and env.replay is not None and isinstance(env.replay.get("payload", {}).get("case"), dict) and "cancel_resume" in env.replay["payload"]["case"]:
         c = env.replay["payload"]["case"]["cancel_resume"]
         jobs.append((c["spec"], c["seed"], c.get("actions1"), c.get("actions2")))
+    for item in extra:
+        c = item["cancel_resume"]
+        jobs.append((c["spec"], c["seed"], c.get("actions1"), c.get("actions2")))
     for _ in range(n):
-        spec = specgen.gen_spec(rng, allow_timeout=False, family=rng.choice(["general", "fanin", "retry", "wait"]))
-        spec["externals"] = [e for e in spec.get("externals", []) if e["op"] == "send"]
-        spec["externals"].append({"op": "cancel", "after_quiet": rng.randint(0, 4)})
-        spec["snapshot_after_end"] = True
-        spec.pop("timeout", None)
-        if rng.random() < 0.6:
-            spec["resume_timeout"] = rng.choice([1, 2, 4, 10, 30])
-        jobs.append((spec, rng.randrange(1 << 30), None, None))
+        jobs.append((gen(rng), rng.randrange(1 << 30), None, None))
     resumed: list = []
+    firsts: list = []
     for spec, seed, a1, a2 in jobs:
         tr1 = live.run_spec(spec, seed=seed, replay_actions=a1)
+        if any(e.get("with_gate") for e in spec.get("externals", [])):
+            firsts.append(tr1)
         out.evaluations += 1
         case = {"cancel_resume": {"spec": spec, "seed": seed, "actions1": tr1.actions, "actions2": None}}
         for v in monitors.mon_c31(tr1):
             out.violations.append(v)
         if tr1.outcome[0] != "cancelled":
-            out.count("cancel_resume:not_cancelled:" + tr1.outcome[0])
+            out.count(label + ":not_cancelled:" + tr1.outcome[0])
             continue
         snaps = [s for s in tr1.snapshots if s.get("after_end")]
         if not snaps:
@@ -72,13 +150,18 @@ def _cancel_resume(env: Env, out: Outcome, n: int) -> None:
             spec2["timeout"] = spec["resume_timeout"]  # the resumed run is bounded by the workflow's timeout like a fresh one
         tr2 = live.run_spec(spec2, seed=seed + 1, replay_actions=a2, resume_from=snaps[0]["dict"])
         case["cancel_resume"]["actions2"] = tr2.actions
-        out.count("cancel_resume:resumed")
-        out.count(f"cancel_resume:pending:{min(len(pending), 4)}")
-        out.count("cancel_resume:outcome:" + tr2.outcome[0])
-        if pending:
+        owed = _unfinished_invocations(tr1)
+        out.count(label + ":resumed")
+        out.count(f"{label}:pending:{min(len(pending), 4)}")
+        out.count(label + ":outcome:" + tr2.outcome[0])
+        for _k, why, _x in owed:
+            out.count(f"{label}:owed:{why}")
+        for r_ in getattr(tr1, "raced", []):
+            out.count(f"{label}:cancel_raced_with_gate")
+        if pending or owed:
             out.nontrivial((repr(spec), tuple(tr1.actions)))
         resumed.append(tr2)
-        out.count("cancel_resume:resume_timeout:" + str(spec2.get("timeout")))
+        out.count(label + ":resume_timeout:" + str(spec2.get("timeout")))
         for v in monitors.mon_c31(tr2):
             v.replay = case
             out.violations.append(v)
@@ -90,15 +173,38 @@ def _cancel_resume(env: Env, out: Outcome, n: int) -> None:
         for p in pending:
             if p not in entered and not ended_early:
                 out.violations.append(Violation("C31/pending_invocation_not_resumed", f"after cancel + resume the invocation {p} (in progress or queued at the cancel) was never executed; resumed run ended as {tr2.outcome[0]}", case))
+        # the same clause without reading the engine's state: what the step bodies themselves saw start and not finish
+        for key, why, x in owed:
+            if key in entered or ended_early:
+                continue
+            if why == "retry_after_delay":
+                # a retry waiting out a positive delay lives in the runner's timer heap only and is not part of the serialised
+                # context: the recorded open finding C12/pending_retry_timer_lost -- counted, not raised again under C31
+                out.count(f"{label}:retry_after_positive_delay_not_resumed(open finding C12/pending_retry_timer_lost)")
+                continue
+            snap_w = snaps[0]["dict"].get("workers", {}).get(key[0], {})
+            held = f"serialised context holds {len(snap_w.get('queue', []))} queued / {len(snap_w.get('in_progress', []))} in-progress event(s) for {key[0]}"
+            if why == "in_progress":
+                out.violations.append(Violation("C31/started_invocation_not_resumed:in_progress_at_cancel",
+                                                f"the invocation {key} was executing when cancel_run ended the run; after ctx.to_dict -> Context.from_dict -> run it was never "
+                                                f"executed again (resumed run ended as {tr2.outcome[0]}); {held}", case))
+            else:
+                out.violations.append(Violation("C31/started_invocation_not_resumed:immediate_retry_pending_at_cancel",
+                                                f"execution {x} of {key} had failed and its retry policy {next(s_ for s_ in spec['steps'] if s_['name'] == key[0]).get('retry')} "
+                                                f"grants an immediate retry (delay 0) when cancel_run ended the run; after ctx.to_dict -> Context.from_dict -> run the step was "
+                                                f"never executed again for that event (resumed run ended as {tr2.outcome[0]}); {held}", case))
 
     # the resumed runs against the runner LTS (rinit without a start event: timer heap, buffer, workers, stream, commands per tick)
     suite.runner_corr(out, resumed, "engine-runner-resumed")
+    # the cancelled runs whose cancel was delivered together with a gate opening: worker result and cancel tick in front of the loop at once
+    suite.runner_corr(out, firsts, "engine-runner-cancel-race")
 
 
 def run(env: Env) -> Outcome:
     out = Outcome()
     out.rule = ("live: general/retry/wait workflows with timeouts and cancels at scheduler-chosen quiet points; cancel_resume: cancel, ctx.to_dict -> JSON, "
-                "Context.from_dict, run again; non-trivial = more than 2 ticks / work pending at the cancel; distinct by (spec, schedule)")
+                "Context.from_dict, run again; cancel_race: zero-delay (and some positive-delay) retry policies, attempts failing behind a gate, the cancel "
+                "delivered together with a gate opening; non-trivial = more than 2 ticks / work pending or owed at the cancel; distinct by (spec, schedule)")
 
     def with_end(spec: dict, rng: random.Random) -> dict:
         r = rng.random()
@@ -112,7 +218,9 @@ def run(env: Env) -> Outcome:
     suite.serde_corr(env, out, env.budget(200, 4000))
     suite.live_runs(env, out, env.budget(20, 400), [monitors.mon_c31], extra_specs=suite.load_corpus("C31"))
     suite.live_runs(env, out, env.budget(300, 6000), [monitors.mon_c31], mutate_spec=with_end)
-    _cancel_resume(env, out, env.budget(100, 2000))
+    _cancel_resume(env, out, env.budget(100, 2000), extra=tuple(suite.load_corpus("C31/cancel_resume")))
+    # the cancel arriving in the instant an attempt of a retried step fails (immediate retries mostly)
+    _cancel_resume(env, out, env.budget(80, 1500), gen=_race_spec, label="cancel_race", replay=False)
     # a finishing step whose sibling needs a while to unwind from its cancellation, with the deadline inside that window
     # (fractional times: outside the integral-time runner correspondence, monitors only)
     rng = random.Random(env.rng.randrange(1 << 30))
